@@ -279,6 +279,12 @@ def check_init_cdb(prog, run):
         def thunk2(v=v):
             ok_op = I.instantiate(opcls, ["TEST_UNIT_READY", 0x00, {}], {}, None, _F())
             I.instantiate(tur, [ok_op], {}, None, _F())
+            # an operation code object of the same *name* and a value of another group used first: the length belongs to the
+            # value (v ^ 0x80: group 0 <-> 4, 1 <-> 5, 2 <-> 6, 3 <-> 7), not to the name or to what was asked before
+            try:
+                I.instantiate(tur, [I.instantiate(opcls, ["X", v ^ 0x80, {}], {}, None, _F())], {}, None, _F())
+            except PyRaise:
+                pass
             op = I.instantiate(opcls, ["X", v, {}], {}, None, _F())
             outs = []
             for attempt in range(2):
